@@ -219,3 +219,28 @@ def const_leaf_terms(W):
                       ("bsel", a, cst, 1), ("wsel", a, cst, 2)):
                 if try_shape(t) is not None:
                     yield t
+
+
+def const_inner_terms(shape_pair, W):
+    """two-operator terms whose INNER node mixes a signal with a constant (zero / one extension, constant masks, constant
+    shift amounts...): back ends special-case constant nets (trimming, folding), so every consumer must see them"""
+    a, b = (sig_leaf(i, sh) for i, sh in enumerate(shape_pair))
+    inners = []
+    for cst in [("c", 0, 1, False), ("c", 0, 2, False), ("c", 1, 1, False), ("c", 3, 2, False), ("c", -1, 1, True), ("c", -2, 2, True), ("c", 0, 0, False)]:
+        inners += [("cat", a, cst), ("cat", cst, a), ("b", "&", a, cst), ("b", "|", a, cst), ("b", "+", a, cst), ("b", "*", a, cst),
+                   ("b", "<<", a, cst) if not cst[3] else ("b", "^", a, cst), ("b", ">>", cst, a) if not a[3] else ("b", "-", cst, a),
+                   ("mux", a, cst, b), ("mux", cst, a, b), ("b", "==", a, cst), ("bsel", cst, a, 2) if not a[3] else ("b", "<", cst, a)]
+    seen = set()
+    for inner in inners:
+        sh = try_shape(inner)
+        if sh is None or sh[0] > 6:
+            continue
+        for outer in forms1(inner, b, a, W, rich=False):
+            if outer not in seen and try_shape(outer) is not None:
+                seen.add(outer)
+                yield outer
+        for op in BINARY:
+            outer = ("b", op, b, inner)
+            if outer not in seen and try_shape(outer) is not None:
+                seen.add(outer)
+                yield outer
